@@ -17,11 +17,15 @@ def messages (cfg : J) : List Str := messagesEnv ValidRules.rules (env cfg)
 /-- Does a `TypeError` escape from the key checks of the current code? -/
 def escapesNow (cfg : J) : Bool := escapes ValidRules.suggestStrWrap ValidRules.rules (env cfg)
 
+/-- Every enumeration check of the normaliser: the typed rules and the output-only checks. -/
+def allEnum : List EnumRule := enumRules ValidRules.rules ++ ValidRules.enumChecks
+
 /-- Monitor: accepted ⇒ every active numeric rule's checked value AND the value its canonical leaf
 holds in the normalised config are in the documented range. -/
 def allRangeOk (cfg : J) : Bool :=
   let e := env cfg
-  (numRules ValidRules.rules).all (fun r => r.rangeOk e && r.outRangeOk e)
+  (numRules ValidRules.rules).all (fun r => r.rangeOk e && r.outRangeOk e) &&
+  allEnum.all (fun r => r.outRangeOk e)
 
 /-- Monitor: every fired numeric rule's value is outside its documented range. -/
 def allRejectOk (cfg : J) : Bool :=
@@ -33,6 +37,6 @@ def allOutOk (cfg out : J) : Bool :=
   let e := env cfg
   let o := ensureDict out
   (numRules ValidRules.rules).all (fun r => r.outOk e o) &&
-  (enumRules ValidRules.rules).all (fun r => r.outOk o)
+  (allEnum).all (fun r => r.outOk e o)
 
 end Clem.Valid
